@@ -101,44 +101,62 @@ func prepare(cfg *config) *built {
 	scratchDirs = append(scratchDirs, scratch)
 	scratchMu.Unlock()
 	cp := filepath.Join(scratch, "copy")
-	if err := copyTree(cfg.repoDir, cp); err != nil {
-		die2("copy %s: %v", cfg.repoDir, err)
-	}
-	rep, err := instrumentTree(cp, filepath.Join(cfg.verifDir, "sim", "verifsim"))
-	if err != nil {
-		die2("instrument: %v", err)
-	}
 	wdir := filepath.Join(scratch, "worker")
-	if err := os.MkdirAll(wdir, 0o755); err != nil {
-		die2("%v", err)
-	}
-	srcs, _ := filepath.Glob(filepath.Join(cfg.verifDir, "sim", "worker", "*.go"))
-	if len(srcs) == 0 {
-		die2("no worker sources under %s/sim/worker", cfg.verifDir)
-	}
-	for _, s := range srcs {
-		b, err := os.ReadFile(s)
-		if err != nil {
-			die2("%v", err)
-		}
-		if err := os.WriteFile(filepath.Join(wdir, filepath.Base(s)), b, 0o644); err != nil {
-			die2("%v", err)
-		}
-	}
-	gomod := fmt.Sprintf("module geosimworker\n\ngo 1.18\n\nrequire %s v0.0.0\n\nreplace %s => ../copy\n", rep.Module, rep.Module)
-	if err := os.WriteFile(filepath.Join(wdir, "go.mod"), []byte(gomod), 0o644); err != nil {
-		die2("%v", err)
-	}
-	if b, err := os.ReadFile(filepath.Join(cfg.repoDir, "go.sum")); err == nil {
-		_ = os.WriteFile(filepath.Join(wdir, "go.sum"), b, 0o644)
-	}
 	bin := filepath.Join(scratch, "simworker")
-	cmd := exec.Command(cfg.goCmd, "build", "-race", "-trimpath", "-o", bin, ".")
-	cmd.Dir = wdir
-	cmd.Env = goEnv()
-	out, err := cmd.CombinedOutput()
-	if err != nil {
-		die2("building the instrumented tree failed (not a verdict):\n%s", out)
+	var rep *InstrumentReport
+	var buildOut []byte
+	// First attempt: with yield points inside expressions (around atomic
+	// operations). If that copy does not build (a look-alike method was
+	// wrapped), instrument again without expression wrapping.
+	for _, wrap := range []bool{true, false} {
+		os.RemoveAll(cp)
+		os.RemoveAll(wdir)
+		if err := copyTree(cfg.repoDir, cp); err != nil {
+			die2("copy %s: %v", cfg.repoDir, err)
+		}
+		var err error
+		rep, err = instrumentTree(cp, filepath.Join(cfg.verifDir, "sim", "verifsim"), wrap)
+		if err != nil {
+			die2("instrument: %v", err)
+		}
+		if err := os.MkdirAll(wdir, 0o755); err != nil {
+			die2("%v", err)
+		}
+		srcs, _ := filepath.Glob(filepath.Join(cfg.verifDir, "sim", "worker", "*.go"))
+		if len(srcs) == 0 {
+			die2("no worker sources under %s/sim/worker", cfg.verifDir)
+		}
+		for _, s := range srcs {
+			b, err := os.ReadFile(s)
+			if err != nil {
+				die2("%v", err)
+			}
+			if err := os.WriteFile(filepath.Join(wdir, filepath.Base(s)), b, 0o644); err != nil {
+				die2("%v", err)
+			}
+		}
+		gomod := fmt.Sprintf("module geosimworker\n\ngo 1.18\n\nrequire %s v0.0.0\n\nreplace %s => ../copy\n", rep.Module, rep.Module)
+		if err := os.WriteFile(filepath.Join(wdir, "go.mod"), []byte(gomod), 0o644); err != nil {
+			die2("%v", err)
+		}
+		if b, err := os.ReadFile(filepath.Join(cfg.repoDir, "go.sum")); err == nil {
+			_ = os.WriteFile(filepath.Join(wdir, "go.sum"), b, 0o644)
+		}
+		cmd := exec.Command(cfg.goCmd, "build", "-race", "-trimpath", "-o", bin, ".")
+		cmd.Dir = wdir
+		cmd.Env = goEnv()
+		var err2 error
+		buildOut, err2 = cmd.CombinedOutput()
+		if err2 == nil {
+			buildOut = nil
+			break
+		}
+		if wrap {
+			fmt.Fprintf(os.Stderr, "simctl: build with expression-level yield points failed, retrying without them\n")
+		}
+	}
+	if buildOut != nil {
+		die2("building the instrumented tree failed (not a verdict):\n%s", buildOut)
 	}
 	bin2, ver2 := "", ""
 	if cfg.tier == "thorough" && cfg.goCmd2 != "" {
@@ -507,7 +525,7 @@ func main() {
 		if err := copyTree(os.Args[2], os.Args[3]); err != nil {
 			die2("%v", err)
 		}
-		rep, err := instrumentTree(os.Args[3], os.Args[4])
+		rep, err := instrumentTree(os.Args[3], os.Args[4], os.Getenv("GEOSIM_NOWRAP") == "")
 		if err != nil {
 			die2("%v", err)
 		}
@@ -848,6 +866,8 @@ func runCheck(cfg *config) int {
 			"yield_sites_preempted_at":         pre,
 			"yield_sites_never_hit":            unhit,
 			"no_preempt_brackets":              b.rep.CritBrackets,
+			"expression_level_yields":          b.rep.ExprWrapping,
+			"atomic_ops_wrapped":               b.rep.AtomicWraps,
 			"constructs_outside_scheduler":     b.rep.Uncontrolled,
 			"controlled":                       agg.FreeRuns == 0,
 			"uncontrolled_fallback_runs":       agg.FreeRuns,
